@@ -139,7 +139,8 @@ def _run_once(case, minimize, negate):
                 r = solvor.differential_evolution(proxy, bounds, minimize=minimize, **pk, population_size=case.get("pop", 6), strategy=case.get("strategy", "rand/1"),
                                                   max_iter=case["max_iter"], seed=seed)
             elif s == "particle_swarm":
-                r = solvor.particle_swarm(proxy, bounds, minimize=minimize, **pk, n_particles=case.get("pop", 6), max_iter=case["max_iter"], seed=seed)
+                wk = {"initial_positions": [list(w) for w in case["warm"]]} if case.get("warm") else {}     # warm starts, some beyond the box
+                r = solvor.particle_swarm(proxy, bounds, minimize=minimize, **pk, **wk, n_particles=case.get("pop", 6), max_iter=case["max_iter"], seed=seed)
             elif s == "nelder_mead":
                 r = solvor.nelder_mead(proxy, x0, minimize=minimize, **pk, max_iter=case["max_iter"], adaptive=case.get("adaptive", False), initial_step=case.get("step", 0.5))
             elif s == "bayesian_opt":
@@ -233,6 +234,12 @@ def gen(rng, solver=None):
             if rng.random() < 0.5:         # small populations (differential_evolution pads them to 4; the /2 strategies need >= 6),
                 # short runs: what was evaluated while setting up must not be forgotten
                 case.update(pop=rng.choice([1, 2, 3, 3, 4, 5]), strategy=rng.choice(["rand/1", "best/1"]), max_iter=rng.choice([0, 1, 1, 2, 4]))
+        if s == "particle_swarm" and rng.random() < 0.4:
+            # warm starts (initial_positions), some of them outside the box, and the objective's centre on one of them: the best point
+            # the caller can offer is one the solver may not return
+            case["warm"] = [[round(rng.uniform(b[0] - 3, b[1] + 3), 2) for b in bounds] for _ in range(rng.choice([1, 2, 3, 8]))]
+            if case["family"] == "step":
+                case["fparams"]["c"] = list(case["warm"][0])
         if s == "bayesian_opt":
             case.update(max_iter=rng.choice([1, 3, 6]), n_initial=rng.choice([2, 4]), acquisition=rng.choice(["ei", "ucb"]))
         if s == "nelder_mead":
